@@ -207,7 +207,11 @@ def c02(cases, res):
                             ok = True
                             break
                     ncommit = len([x for x in commit.split(".") if x])
-                    if not ok or ncommit + len(syms) != len(fsyms):
+                    # the character count presumes C03's contract (one character per symbol); a syllable left
+                    # without any word is committed by its Bopomofo spelling (fix e6644f0) - several characters
+                    # for one symbol, outside C02's / C03's dictionary hypothesis: only the count is waived then
+                    spelled = any(len(iv[3]) != iv[1] - iv[0] for iv in acc)
+                    if not ok or (not spelled and ncommit + len(syms) != len(fsyms)):
                         out.append(fail("auto-commit-not-a-leading-part", case, i,
                                         "full %s ivs %s commit %s left %s" % (fsyms, full["ivs"], commit, syms)))
             # a non-empty commit string exactly when the result says commit
@@ -414,13 +418,22 @@ def c04(cases, res):
             exp = None
             if s.res == "Commit":
                 # auto-commit (or full commit): what is left is a trailing part; later choices shift
-                n = None
-                for cand in (len(psyms) - len(syms), len(psyms) + 1 - len(syms)):
-                    if cand >= 0 and (psyms[cand:] == syms or (cand <= len(psyms) and False)):
-                        n = cand
-                        break
-                if n is not None and psyms[n:] == syms and n > 0:
-                    exp = [(b - n, e - n, k, t) for (b, e, k, t) in psels if b >= n]
+                # (the key may have added one symbol at the cursor before the front was pushed out: n counts the
+                # symbols of the PREVIOUS buffer that left; with repeated symbols both readings can fit the
+                # symbols that remain - then either expectation is accepted)
+                alts = []
+                n0 = len(psyms) - len(syms)
+                if n0 > 0 and psyms[n0:] == syms:
+                    alts.append([(b - n0, e - n0, k, t) for (b, e, k, t) in psels if b >= n0])
+                n1 = len(psyms) + 1 - len(syms)
+                if n1 > 0 and len(syms) >= 1 and n1 <= pcur and psyms[n1:pcur] == syms[:pcur - n1] and psyms[pcur:] == syms[pcur - n1 + 1:]:
+                    kept = [((b + 1, e + 1, k, t) if b >= pcur else (b, e, k, t)) for (b, e, k, t) in psels if not (b < pcur < e)]
+                    alts.append([(b - n1, e - n1, k, t) for (b, e, k, t) in kept if b >= n1])
+                if alts:
+                    checked += 1
+                    if all(sorted(a) != sorted(sels) for a in alts):
+                        out.append(fail("choice-not-preserved", case, i, "expected %s got %s" % (" or ".join(str(sorted(a)) for a in alts), sorted(sels))))
+                continue
             elif len(syms) == len(psyms) + 1 and syms[:pcur] == psyms[:pcur] and syms[pcur + 1:] == psyms[pcur:]:
                 exp = [((b + 1, e + 1, k, t) if b >= pcur else (b, e, k, t)) for (b, e, k, t) in psels
                        if not (b < pcur < e)]
@@ -553,10 +566,11 @@ def c07(cases, res):
 
 def c17(cases, res):
     """queries pure (impl side): a `get` op leaves the hook snapshot untouched, repeated query
-    calls return equal values; reset: the reset context and a fresh twin with the same
+    calls return equal values; a twin editor that executes the same ops but is never queried returns the same
+    results and has the same hook snapshot after every op; reset: the reset context and a fresh twin with the same
     configuration and user dictionary agree after the reset and after every later op"""
     out = []
-    gets = repeated = twins = sparse_cases = 0
+    gets = repeated = twins = sparse_cases = qtwins = 0
     for case in cases:
         if any(l.startswith("MODE sparse") for l in case["setup"]):
             sparse_cases += 1
@@ -571,6 +585,10 @@ def c17(cases, res):
                         out.append(fail("repeated-query-differs", case, i, " | ".join(x[:200] for x in s.gets)))
                 if len(s.all_o) >= 2 and any(o != s.all_o[0] for o in s.all_o[1:]):
                     out.append(fail("repeated-query-differs", case, i, " | ".join(x[:200] for x in s.all_o)))
+            if s.qtwin is not None:
+                qtwins += 1
+                if not s.qtwin.startswith("ok"):
+                    out.append(fail("queries-change-later-results", case, i, s.qtwin[:1500]))
             if s.twin is not None:
                 twins += 1
                 if not s.twin.startswith("ok"):
@@ -578,6 +596,7 @@ def c17(cases, res):
     res.notes["oracle_get_ops"] = gets
     res.notes["oracle_repeated_queries"] = repeated
     res.notes["oracle_twin_comparisons"] = twins
+    res.notes["oracle_query_twin_comparisons"] = qtwins
     res.notes["oracle_sparse_cases"] = sparse_cases
     return out
 
